@@ -58,6 +58,11 @@ def run(ctx):
     kind_flow(ctx, d3)
     separate(ctx, d4)
     steps(ctx, d5)
+    d8 = ctx.rule('D8', 'mix_from reads the inlet enthalpies before it alters the receiver', floor=1)
+    mix_reads_before_mutation(ctx, d8)
+    d7 = ctx.rule('D7', 'single-inlet mixing (= copy_like) copies the thermal condition on every path', floor=2)
+    from .C13 import copy_like_contract
+    copy_like_contract(ctx, d7)
     d6 = ctx.rule('D6', 'solver scratch state is released on every exit (load ... try/finally clear)', floor=4)
     scratch(ctx, d6)
 
@@ -271,6 +276,57 @@ def separate(ctx, d4):
         d4.ok('Stream.separate_out', 'no enthalpy assignment when the energy balance is off', f)
     else:
         d4.fail('Stream.separate_out', 'eb-off', 'enthalpy assigned although the energy balance is off', f, f.node)
+
+
+def mix_reads_before_mutation(ctx, rule):
+    """The receiver may be one of the inlets (C01 says so for the material; the enthalpy clause has the same inlets).  Then every
+    read of the inlets' enthalpies must happen while the receiver is still untouched: no statement that alters self (flows,
+    pressure, phases) may be able to reach a statement that reads i.H over the inlets."""
+    from ..cfg import CFG
+    prog = ctx.prog
+    f = prog.method('Stream', 'mix_from', rel=ST)
+    cfg = CFG(f.node)
+
+    def reads_H(nd):
+        if nd.kind not in ('stmt', 'test', 'return'):
+            return False
+        for h in ([nd.ast] if nd.kind != 'test' else [nd.ast.test]):
+            for x in ast.walk(h):
+                if isinstance(x, (ast.ListComp, ast.GeneratorExp)) and isinstance(x.elt, ast.Attribute) and x.elt.attr in ('H', 'Hnet', 'S') \
+                        and isinstance(x.elt.value, ast.Name) and x.elt.value.id == getattr(x.generators[0].target, 'id', None):
+                    return True
+        return False
+
+    def mutates_self(nd):
+        if nd.kind != 'stmt':
+            return False
+        st = nd.ast
+        if isinstance(st, ast.Assign):
+            for t in st.targets:
+                for x in ([t] if not isinstance(t, ast.Tuple) else t.elts):
+                    if isinstance(x, ast.Attribute) and src(x.value) == 'self' and x.attr in ('P', 'T', 'phases', 'phase', 'H', 'S'):
+                        return True
+        for x in ast.walk(st):
+            if isinstance(x, ast.Call) and isinstance(x.func, ast.Attribute) and src(x.func.value) in ('self._imol', 'self.imol', 'self') \
+                    and x.func.attr in ('mix_from', 'copy_like', 'copy_flow', 'empty', 'vle', 'reduce_phases'):
+                return True
+        return False
+    reads = [nd for nd in cfg.nodes if reads_H(nd)]
+    muts = [nd for nd in cfg.nodes if mutates_self(nd)]
+    if not reads or not muts:
+        raise AnalysisError('Stream.mix_from: enthalpy reads (%d) / receiver mutations (%d) not found' % (len(reads), len(muts)))
+    bad = None
+    for m_ in muts:
+        reach = cfg.reachable_from(m_)
+        reach_ids = {x.id for x in reach} if not isinstance(reach, set) or (reach and not isinstance(next(iter(reach)), int)) else reach
+        for r in reads:
+            if r.id in reach_ids:
+                bad = (m_, r)
+    if bad:
+        rule.fail('Stream.mix_from', 'H-read-after-mutation', 'the inlets\' enthalpies are read (line %d) after the receiver has been altered (line %d): when the receiver '
+                  'is one of the inlets it contributes the enthalpy of its NEW state' % (bad[1].lineno, bad[0].lineno), f, bad[1].ast)
+    else:
+        rule.ok('Stream.mix_from', '%d read(s) of the inlets\' enthalpies, none reachable from any of the %d statements that alter the receiver' % (len(reads), len(muts)), f, reads[0].ast)
 
 
 def _restoring(d, tgt, model_prefix):
